@@ -24,6 +24,7 @@ class Tr:
         self.me = fn.args.args[0].arg
         self.other = fn.args.args[1].arg if len(fn.args.args) > 1 else None
         self.is_pow = fn.name == "__pow__"
+        self.is_eq = fn.name == "__eq__"
         self.paths = []
         self.unknown = []
         self.rationalises = False
@@ -51,6 +52,9 @@ class Tr:
         "self.base_offset != 0": "selfOff", "u.base_offset != 0": "otherOff",
         "self.dimensions in (temperature, angle)": "selfTA", "u.dimensions in (temperature, angle)": "otherTA",
         "p == 0": "pEq0", "p == 1": "pEq1",
+        "isinstance(u, Unit)": "otherIsUnit", "getattr(u, 'is_Unit', False)": "otherIsUnit",
+        "math.isclose(self.base_value, u.base_value)": "scaleClose", "math.isclose(self.base_offset, u.base_offset)": "offsetClose",
+        "self.dimensions is u.dimensions": "dimIs", "self.dimensions == u.dimensions": "dimEq",
     }
     NEG = {"p != 0": "pEq0", "p != 1": "pEq1", "not isinstance(u, Unit)": None, "not getattr(u, 'is_Unit', False)": None}
 
@@ -63,8 +67,10 @@ class Tr:
             for p in reversed(parts[:-1]):
                 out = f"({op} {p} {out})"
             return out
+        if isinstance(node, ast.Constant) and isinstance(node.value, bool):
+            return f"(.const {'true' if node.value else 'false'})"
         s = self.src(node)
-        if not self.is_pow and s in ("not isinstance(u, Unit)", "not getattr(u, 'is_Unit', False)"):
+        if not self.is_pow and not self.is_eq and s in ("not isinstance(u, Unit)", "not getattr(u, 'is_Unit', False)"):
             return "(.atom .otherNotUnit)"
         if isinstance(node, ast.UnaryOp) and isinstance(node.op, ast.Not):
             return f"(.not {self.cond(node.operand)})"
@@ -98,6 +104,8 @@ class Tr:
         L = self.X.lstr
         if node is None:
             return f"(.other {L('None')})"
+        if self.is_eq:
+            return f"(.bool {self.cond(node)})"
         if isinstance(node, ast.Call) and isinstance(node.func, ast.Name) and node.func.id == "Unit" and len(node.args) <= 1 \
                 and all(k.arg in ("base_value", "base_offset", "dimensions", "registry") for k in node.keywords):
             kw = {k.arg: k.value for k in node.keywords}
@@ -169,7 +177,7 @@ def generate(X):
     defs = []
     unknown = []
     rationalises = False
-    for name, lname in (("__mul__", "mulPaths"), ("__truediv__", "truedivPaths"), ("__pow__", "powPaths")):
+    for name, lname in (("__mul__", "mulPaths"), ("__truediv__", "truedivPaths"), ("__pow__", "powPaths"), ("__eq__", "eqPaths")):
         t = Tr(X, fns[name]).run()
         unknown += t.unknown
         rationalises = rationalises or t.rationalises
